@@ -339,8 +339,7 @@ impl FixedCapacityMemoryPool {
             // Update utilization
             #[cfg(zipora_verif)]
             crate::memory::verif_sched::point(crate::memory::verif_sched::FC_ALLOC_UTIL);
-            let utilization = (active * 10000 / self.config.total_blocks) as u32;
-            stats.utilization.store(utilization, Ordering::Relaxed);
+            self.publish_utilization(stats);
         }
 
         Ok(FixedCapacityAllocation::new(ptr, actual_size, size_class_index, self))
@@ -365,16 +364,32 @@ impl FixedCapacityMemoryPool {
         // Update statistics
         if let Some(stats) = &self.stats {
             stats.deallocations.fetch_add(1, Ordering::Relaxed);
-            let active = stats.active_blocks.fetch_sub(1, Ordering::Relaxed) - 1;
+            stats.active_blocks.fetch_sub(1, Ordering::Relaxed);
             
             // Update utilization
             #[cfg(zipora_verif)]
             crate::memory::verif_sched::point(crate::memory::verif_sched::FC_FREE_UTIL);
-            let utilization = (active * 10000 / self.config.total_blocks) as u32;
-            stats.utilization.store(utilization, Ordering::Relaxed);
+            self.publish_utilization(stats);
         }
 
         Ok(())
+    }
+
+    /// Store the utilization gauge (percent x 100) derived from `active_blocks`.
+    ///
+    /// Threads finish their allocations and deallocations in any order, so a value computed from
+    /// the count a thread saw when it updated `active_blocks` may be stored after a newer one and
+    /// stay there.  The gauge is therefore derived from the current count and stored again until
+    /// the count has not moved across the store: the last store of all then matches the count.
+    fn publish_utilization(&self, stats: &FixedCapacityPoolStats) {
+        loop {
+            let active = stats.active_blocks.load(Ordering::SeqCst);
+            let utilization = (active * 10000 / self.config.total_blocks) as u32;
+            stats.utilization.store(utilization, Ordering::SeqCst);
+            if stats.active_blocks.load(Ordering::SeqCst) == active {
+                break;
+            }
+        }
     }
 
     /// Get pool statistics
